@@ -66,7 +66,8 @@ def correspond(ck, cases, label, own_tree=True):
         nlive = sum(1 for s in c['seqs'] if s)
         tasks = 'AUTO' if (own_tree and nlive < 100) else (p['tree'] or 'AUTO')
         mlines.append('pipeline %d %d %d %d %d %s %s' % (bt, c['type'], c['pens'][0], c['pens'][1], c['pens'][2], tasks, ' '.join(gen.hexs(s) for s in c['seqs'])))
-    mod = ck.run_lines_sharded(model, mlines, shards=14, timeout=3000)
+    # the extracted binary32 model needs about 90 s for a pair of 1100 residues: generous per-case limit (the model does not hang)
+    mod = ck.run_lines_sharded(model, mlines, shards=14, timeout=3000, case_timeout=900)
     ck.evaluations += len(cases)
     st = ck.corr.setdefault(label, {'cases': 0, 'disagreements': 0, 'merges_compared': 0})
     dis = []
